@@ -175,11 +175,22 @@ Print Assumptions C05_x_reverted_frame_invisible.
     EVM module account are undone by the revert of the call (by construction of the model of the order "journal, then
     flush"; what makes it matter is the theorem above — no later revert or commit can bring the prefix back). *)
 Theorem C05_x_failed_flush_invisible :
-  forall c U bsend s s1 net,
-  xpre true c U bsend s = Some (s1, net) -> snd (commit2 c U (s_wei s) (s_cb s)) = false ->
+  forall c U sends refuse s s1 net,
+  xpre true c U sends refuse s = Some (s1, net) -> snd (commit2 c U (s_wei s) (s_cb s)) = false ->
   net = [] /\ s_wei s1 = s_wei s /\ s_cb s1 = s_cb s /\ s_snap s1 = s_snap s.
 Proof. exact failed_flush_invisible. Qed.
 Print Assumptions C05_x_failed_flush_invisible.
+
+(** A precompile call whose body dispatches a message the chain refuses inside a running EVM state transition
+    (Wasm.execute -> contract -> MsgConvertCoinToEvm / MsgCreateFunToken / MsgEthereumTx, fix 8031c94) has no effect,
+    whatever bank sends (funds, dispatched MsgSend) it made before; that such calls, in kept or reverted frames and
+    followed by further bank sends, never break [P] is C05_x_deliver_satisfies_P. *)
+Theorem C05_x_refused_dispatch_invisible :
+  forall c U sends s s1 net,
+  xpre true c U sends true s = Some (s1, net) ->
+  net = [] /\ s_wei s1 = s_wei s /\ s_cb s1 = s_cb s /\ s_snap s1 = s_snap s.
+Proof. exact refused_call_invisible. Qed.
+Print Assumptions C05_x_refused_dispatch_invisible.
 
 (** OnRunStart flushing BEFORE it journals the PrecompileCalled entry ([deliver_x false]) REFUTES the property: a
     reverted sub-call that paid a blocked module account and then called a precompile leaves the flush's mint at the
